@@ -123,7 +123,7 @@ $(B)/bin/tconn_exec: $(B)/harness/tconn_exec.o $(B)/shim/shim_tconn.o $(CARES_ST
 
 # C08: own shim (shim/shim_life.c) with its own interposition list; shim.o is not linked
 LIFE_WRAP := $(foreach s,send recv connect accept4 socket close bind listen epoll_create1 epoll_ctl eventfd \
-             timerfd_create timerfd_settime fopen fclose open unlink setsockopt getsockopt shutdown dup dup2 fcntl,\
+             timerfd_create timerfd_settime fopen fread fclose open unlink setsockopt getsockopt shutdown dup dup2 fcntl,\
              -Wl,--wrap=$(s))
 $(B)/bin/life_exec: $(B)/harness/life_exec.o $(B)/shim/shim_life.o $(LIB_OBJ)
 	@mkdir -p $(dir $@)
